@@ -28,8 +28,54 @@ class FalsyVertex(Vertex):
         return False
 
 
+class _ValueEq:
+    """Value semantics: equal when of the same class and carrying the same tag."""
+
+    def __eq__(self, other):
+        return type(other) is type(self) and getattr(other, "sim_tag", None) == getattr(
+            self, "sim_tag", None
+        )
+
+    def __hash__(self):
+        return hash(("value-eq", getattr(self, "sim_tag", None)))
+
+
+class EqVertex(_ValueEq, Vertex):
+    """Vertices that compare equal by value: equal-but-distinct objects exist."""
+
+
+class EqUniverse(_ValueEq, Universe):
+    """Universes that compare equal by value."""
+
+
+class SlottedVertex(Vertex):
+    """A vertex subclass that keeps some of its attributes in __slots__."""
+
+    __slots__ = ("name", "rank")
+
+
 class SubUniverse(Universe):
     """A plain subclass of Universe."""
+
+
+class FalsyUniverse(Universe):
+    """A universe that is falsy while it has no members (a container-like class)."""
+
+    def __len__(self):
+        return len(self.vertices)
+
+
+class RejectingUniverse(Universe):
+    """
+    A universe with an admission rule: user code that calls back into the
+    library in the middle of an operation.  A vertex tagged 5 is added by the
+    base class and then removed again.
+    """
+
+    def add_vertex(self, vert):
+        super().add_vertex(vert)
+        if getattr(vert, "sim_tag", None) == 5 and vert in self.vertices:
+            self.remove_vertex(vert)
 
 
 class SubDirected(DirectedEdge):
@@ -38,6 +84,24 @@ class SubDirected(DirectedEdge):
 
 class SubUnDirected(UnDirectedEdge):
     """A subclass of UnDirectedEdge."""
+
+
+class RenamedDirected(DirectedEdge):
+    """A directed edge type whose constructor names its ends differently."""
+
+    def __init__(self, src=None, dst=None, *, uid=None, attributes=None):
+        super().__init__(src, dst, uid=uid, attributes=attributes)
+
+
+class _FalsyMeta(type):
+    """Classes made with this metaclass are falsy (e.g. len(cls) counts something)."""
+
+    def __bool__(cls):
+        return False
+
+
+class FalsyClassEdge(UnDirectedEdge, metaclass=_FalsyMeta):
+    """An undirected edge type whose CLASS object is falsy."""
 
 
 class OtherTwoEnded(TwoEndedLink):
@@ -61,14 +125,24 @@ VERTEX_CLASSES = {
     "Vertex": Vertex,
     "SubVertex": SubVertex,
     "FalsyVertex": FalsyVertex,
+    "SlottedVertex": SlottedVertex,
+    "EqVertex": EqVertex,
 }
-UNIVERSE_CLASSES = {"Universe": Universe, "SubUniverse": SubUniverse}
+UNIVERSE_CLASSES = {
+    "Universe": Universe,
+    "SubUniverse": SubUniverse,
+    "FalsyUniverse": FalsyUniverse,
+    "RejectingUniverse": RejectingUniverse,
+    "EqUniverse": EqUniverse,
+}
 EDGE_CLASSES = {
     "DirectedEdge": DirectedEdge,
     "UnDirectedEdge": UnDirectedEdge,
     "SubDirected": SubDirected,
     "SubUnDirected": SubUnDirected,
     "OtherTwoEnded": OtherTwoEnded,
+    "RenamedDirected": RenamedDirected,
+    "FalsyClassEdge": FalsyClassEdge,
 }
 ALL_CLASSES = dict(VERTEX_CLASSES)
 ALL_CLASSES.update(UNIVERSE_CLASSES)
@@ -78,11 +152,11 @@ ALL_CLASSES["UniverseLaws"] = UniverseLaws
 
 
 def is_directed(clsname):
-    return clsname in ("DirectedEdge", "SubDirected")
+    return clsname in ("DirectedEdge", "SubDirected", "RenamedDirected")
 
 
 def is_undirected(clsname):
-    return clsname in ("UnDirectedEdge", "SubUnDirected")
+    return clsname in ("UnDirectedEdge", "SubUnDirected", "FalsyClassEdge")
 
 
 # --- filter pool (pure, module level, picklable, stable verdicts) -----------
